@@ -265,7 +265,20 @@ def _theorems_in(prop: str) -> list[str]:
 
 
 def proof_audit(prop: str, thorough: bool = False) -> dict:
-    """build the property module, grep forbidden tokens, audit axioms of every property theorem"""
+    """build the property module, grep forbidden tokens, audit axioms of every property theorem
+    (serialised across concurrently running checks: lake builds must not race on .lake)"""
+    import fcntl
+
+    (LEAN / ".lake").mkdir(exist_ok=True)
+    with open(LEAN / ".lake" / "verif.lock", "w") as lock:
+        fcntl.flock(lock, fcntl.LOCK_EX)
+        try:
+            return _proof_audit(prop, thorough)
+        finally:
+            fcntl.flock(lock, fcntl.LOCK_UN)
+
+
+def _proof_audit(prop: str, thorough: bool = False) -> dict:
     t0 = time.time()
     mod = f"LW.Properties.{prop}"
     extra = [f"LW.Properties.{m}" for m in EXTRA_MODULES.get(prop, [])]
